@@ -54,28 +54,45 @@ def service_cases(tier, inst):
         kinds = {A.kind_of(s) for s in ms}
         for ui in range(len(usets)):
             yield {"streams": ms, "uset": ui, "inst": list(inst)}
+        if len(ms) == 2:
+            # two zones, and one zone with unit-operation targeting on (every zone's and operation's DI target is checked)
+            for ui in (3, 5):
+                yield {"streams": ms, "zones": ["A", "B"], "uset": ui, "inst": list(inst)}
+                yield {"streams": ms, "zones": ["A", "A"], "uset": ui, "inst": list(inst), "options": {"DO_DIRECT_OPERATION_TARGETING": True}}
 
 
 def service_run(case, res: Result):
-    from OpenPinch.lib.enums import ProblemTableLabel as PT
-
     usets = P.utility_sets(tuple(case["inst"]), 4, "large")
     streams = [tuple(s) for s in case["streams"]]
-    prob = A.problem(streams, utilities=usets[case["uset"]])
+    prob = A.problem(streams, case.get("zones"), utilities=usets[case["uset"]], options=case.get("options"))
     out, master = S.run(prob)
-    t = master.targets[f"{master.name}/{S.DI}"]
+    nontriv = False
+    outcome = []
+    for path, z, key, t in S.traverse_targets(master):
+        if S.kind_of_record(key) != S.DI:
+            continue
+        idxs = S.members_of_zone(prob, path, z)
+        if not idxs:
+            continue
+        nt = check_target(case, res, prob, t, S.cascade_for(prob, idxs), f"u{case['uset']}" + (":operation-zone" if z.identifier == "Unit Operation" else ""), "/".join(path))
+        nontriv = nontriv or nt
+        outcome.append([[round(float(u.heat_flow), 5) for u in t.hot_utilities], [round(float(u.heat_flow), 5) for u in t.cold_utilities]])
+    res.add_case(case, nontriv, outcome=outcome)
+
+
+def check_target(case, res, prob, t, c, tag, zone_name) -> bool:
+    from OpenPinch.lib.enums import ProblemTableLabel as PT
+
     pt = t.pt
-    c = S.cascade_for(prob, list(range(len(streams))))
     eps = 1e-6 * float(c.total) + 2.2e-4   # stored tables are rounded to 4 dp
     T = pt.col[PT.T.value]
     act = pt.col[PT.H_NET_A.value]
     ut = pt.col[PT.H_NET_UT.value]
-    tag = f"u{case['uset']}"
     # (1) the tabulated utility GCC lies between zero and the pocket-free process GCC at every row
     for i in range(len(T)):
         if ut[i] < -eps or ut[i] > act[i] + eps:
             res.violate("utility_gcc_outside_process_gcc", case,
-                        {"T": float(T[i]), "H_net_ut": float(ut[i]), "H_net_actual": float(act[i]), "rows_T": T.tolist(), "ut": ut.tolist(), "act": act.tolist()},
+                        {"zone": zone_name, "T": float(T[i]), "H_net_ut": float(ut[i]), "H_net_actual": float(act[i]), "rows_T": T.tolist(), "ut": ut.tolist(), "act": act.tolist()},
                         "utility_gcc_outside_process_gcc:" + tag)
             break
     # (2) independent: from the reported duties and the exact cascade
@@ -93,7 +110,7 @@ def service_run(case, res: Result):
             ranges = [(fr(u.t_min_star), fr(u.t_max_star)) for u in us]
             got = [fr(u.heat_flow) for u in us]
             bad = feasible(prof, bps, ranges, got, side, e2)
-            detail = {"side": side, "utilities": [(u.name, float(u.heat_flow), u.t_min_star, u.t_max_star) for u in us]}
+            detail = {"zone": zone_name, "side": side, "utilities": [(u.name, float(u.heat_flow), u.t_min_star, u.t_max_star) for u in us]}
             if bad is not None:
                 res.violate("infeasible", case, dict(detail, at_T=float(bad[0]), utility_heat=float(bad[1]), process_can_take=float(bad[2])),
                             f"infeasible:{side}:" + tag)
@@ -108,7 +125,7 @@ def service_run(case, res: Result):
                         break
             if any(float(e2) < float(g) < float(Q) - float(e2) for g in got[:-1]):
                 nontriv = True
-    res.add_case(case, nontriv, outcome=[[round(float(u.heat_flow), 5) for u in t.hot_utilities], [round(float(u.heat_flow), 5) for u in t.cold_utilities]])
+    return nontriv
 
 
 SUBCHECKS = {
